@@ -61,12 +61,37 @@ pub fn key_half_block() -> BoxedStrategy<Blob> {
         .boxed()
 }
 
+/// lengths sitting on power-of-two / integer-width boundaries
+pub const MAGIC_LENS: [u32; 17] = [7, 8, 9, 15, 16, 17, 127, 128, 129, 255, 256, 257, 511, 512, 1023, 1024, 1025];
+pub const MAGIC_LENS_BIG: [u32; 9] = [4095, 4096, 4097, 32767, 32768, 65535, 65536, 65537, 131072];
+
+/// keys whose length is exactly a boundary value (distinguished by their tail)
+pub fn key_magic_len() -> BoxedStrategy<Blob> {
+    (prop::sample::select(&MAGIC_LENS[..]), prop_oneof![Just(0x00u8), Just(0x61u8), Just(0xffu8)], vec(any::<u8>(), 1..=2))
+        .prop_map(|(n, fill, tail)| {
+            let t = tail.len() as u32;
+            Blob::Pad { fill, n: n.saturating_sub(t), tail: tail[..(n.min(t)) as usize].to_vec() }
+        })
+        .boxed()
+}
+
+pub fn val_magic_len() -> BoxedStrategy<Blob> {
+    prop_oneof![
+        4 => (prop::sample::select(&MAGIC_LENS[..]), any::<u8>()).prop_map(|(n, fill)| Blob::Pad { fill, n, tail: vec![] }),
+        2 => (prop::sample::select(&MAGIC_LENS[..]), any::<u64>()).prop_map(|(n, seed)| Blob::Rand { n, seed }),
+        1 => (prop::sample::select(&MAGIC_LENS_BIG[..]), any::<u64>()).prop_map(|(n, seed)| Blob::Rand { n, seed }),
+        1 => (prop::sample::select(&MAGIC_LENS_BIG[..]), any::<u8>()).prop_map(|(n, fill)| Blob::Pad { fill, n, tail: vec![] }),
+    ]
+    .boxed()
+}
+
 pub fn key_any() -> BoxedStrategy<Blob> {
     prop_oneof![
-        3 => key_tiny(),
-        3 => key_ascii(),
-        2 => key_bytes(),
-        1 => key_long(),
+        6 => key_tiny(),
+        6 => key_ascii(),
+        4 => key_bytes(),
+        2 => key_long(),
+        1 => key_magic_len(),
     ]
     .boxed()
 }
@@ -95,6 +120,7 @@ pub fn val_any(max_big: u32) -> BoxedStrategy<Blob> {
         1 => (any::<u8>(), 1024u32..max_big.max(1025)).prop_map(|(fill, n)| Blob::Pad { fill, n, tail: vec![] }),
         1 => (0u16..40, any::<bool>(), 0u8..=6, 0u64..1000)
             .prop_map(|(pad, v2, codec, count)| Blob::Trailer { pad, v2, codec, count }),
+        2 => val_magic_len(),
         // beyond the 32/64 KiB windows and frame chunk sizes of the codecs (incompressible and compressible)
         1 => prop_oneof![
             (60_000u32..200_000, any::<u64>()).prop_map(|(n, seed)| Blob::Rand { n, seed }),
@@ -232,7 +258,11 @@ pub fn entry_src(tier: Tier) -> BoxedStrategy<EntrySrc> {
         2 => list_src(key_long(), val_small(), 60),
         2 => list_src(key_half_block(), val_small(), 60),
         2 => list_src(key_any(), val_any(big), max),
+        1 => list_src(key_magic_len(), prop_oneof![val_small(), val_magic_len()].boxed(), 40),
         3 => counter_src(max as u32),
+        // entry counts sitting on boundaries (default interval 8, u8/u16 widths)
+        1 => (prop::sample::select(vec![7u32, 8, 9, 16, 17, 63, 64, 65, 255, 256, 257, 511, 512, 513]), any::<u32>(), 1u32..9, 0u16..6, any::<u8>(), prop_oneof![Just(0u16), Just(4u16), 0u16..300], 0u8..4)
+            .prop_map(|(n, start, stride, pad, fill, vlen, vkind)| EntrySrc::Counter { start: start / 2, stride, n, pad, fill, vlen, vkind }),
     ]
     .boxed()
 }
